@@ -306,6 +306,17 @@ func genProxyCase(r *Rng, big bool) *PCase {
 	for i := 0; i < nr; i++ {
 		c.Reads = append(c.Reads, PChunk{N: int(r.PickI(1, 1, 2, 7, 64, 500, 4096, 65537))})
 	}
+	if r.Chance(7) {
+		// a body of several write blocks delivered as a small piece, then pieces of a block or more, then
+		// small ones again (what a slow start of a large identity-encoded response looks like)
+		c.Size = 40000 + r.Intn(160000)
+		c.Payload = "many"
+		c.Reads = []PChunk{{N: int(r.PickI(1, 7, 500, 1500, 4096))}}
+		for i := 0; i < 1+r.Intn(3); i++ {
+			c.Reads = append(c.Reads, PChunk{N: int(r.PickI(32768, 40000, 65537, 4096))})
+		}
+		c.Reads = append(c.Reads, PChunk{N: int(r.PickI(1, 64, 4096))})
+	}
 	if c.Reads == nil {
 		c.Reads = []PChunk{}
 	}
